@@ -220,7 +220,8 @@ func GenerateContext(values []float64) *Context {
 
 	distinctCount := 1
 	for i := range values {
-		if i > 0 && values[i] != values[i-1] {
+		// compare the bits: 0.0 == -0.0, but they are different values to store
+		if i > 0 && math.Float64bits(values[i]) != math.Float64bits(values[i-1]) {
 			distinctCount++
 		}
 
